@@ -1,8 +1,1253 @@
-//! C07 — not implemented yet
-use vcore::{Args, Check};
+//! C07 — signer registration requires a genuine, pool-bound, stake-bound key.
+//!
+//! Honest registrations are assembled from raw material (ed25519 cold key → operational certificate, KES Sum6 key
+//! evolved to `e_sig`, KES signature over the 192-byte `vk‖PoP`, BLS key + proof of possession) and kept as a
+//! record of *raw bytes*. A mutation grammar rewrites the record (with the secrets of the own pool, of a second
+//! pool and of fresh pools at hand, so that every component can be altered with and without re-signing). The record
+//! is then turned into `SignerRegistrationParameters` and submitted to `KeyRegWrapper::register` inside a round of
+//! several attempts, and (second section) into a `Signer` submitted to the aggregator's
+//! `MithrilSignerRegistrationVerifier::verify`.
+//!
+//! Oracle: every conjunct of the statement is *evaluated on the submitted bytes* by the harness with primitives
+//! that are independent of mithril (ed25519-dalek on a message rebuilt here, kes-summed-ed25519 on periods 0..=63,
+//! blst for the proof of possession, Blake2b-224 + an own bech32 encoder for the pool id, an own set of registered
+//! keys). accept ⇒ all conjuncts; returned party id = derived id; closed registration = {(vk, distribution[id])}.
+
+use std::collections::{BTreeMap, BTreeSet, HashMap};
+use std::sync::{Arc, Mutex, OnceLock};
+
+use blake2::digest::consts::U28;
+use blake2::{Blake2b, Digest};
+use ed25519_dalek::{Signature as EdSignature, Signer as _, SigningKey, Verifier as _, VerifyingKey};
+use kes_summed_ed25519::PublicKey as KesPublicKey;
+use kes_summed_ed25519::kes::{Sum6Kes, Sum6KesSig};
+use kes_summed_ed25519::traits::{KesSig, KesSk};
+use mithril_common::crypto_helper::{
+    KesEvolutions, KesPeriod, OpCert, ProtocolKeyRegistration as KeyRegWrapper, OpCertWithoutColdVerificationKey, ProtocolKey, SignerRegistrationParameters,
+};
+use mithril_stm::{Initializer, Parameters, VerificationKeyProofOfPossessionForConcatenation};
+use proptest::prelude::*;
+use rand_chacha::ChaCha20Rng;
+use rand_core::SeedableRng;
+use serde::{Deserialize, Serialize};
+use serde_json::json;
+use vcore::{Args, Check, Report, catch, mix, pick_index};
+
+const KES_BUF: usize = Sum6Kes::SIZE + 4;
+const KES_SIG: usize = 448;
+const MAX_EVO: u32 = 63;
+/// signature made at the last evolution (63) accepted although an evolution beyond 64 is announced
+const KEY_ALIAS: &str = "kes-window-alias-beyond-last-period";
+
+// ------------------------------------------------------------------------------------------- raw material
+
+/// Everything secret and public of one stake pool operator, a pure function of `seed`.
+pub struct PoolMat {
+    cold_sk: SigningKey,
+    cold_vk: [u8; 32],
+    kes_vk: [u8; 32],
+    /// KES secret key bytes after e evolutions, e = 0..=63
+    kes_snap: Vec<Vec<u8>>,
+    vkpop: [u8; 192],
+    pool_id: String,
+}
+
+fn seed32(seed: u64, tag: u8) -> [u8; 32] {
+    let mut s = [tag; 32];
+    s[..8].copy_from_slice(&seed.to_le_bytes());
+    s[8..16].copy_from_slice(&mix(seed, tag as u64).to_le_bytes());
+    s[16..24].copy_from_slice(&mix(seed ^ 0xabcdef, 7 + tag as u64).to_le_bytes());
+    s
+}
+
+static MATS: OnceLock<Mutex<HashMap<u64, Arc<PoolMat>>>> = OnceLock::new();
+
+pub fn mat(seed: u64) -> Arc<PoolMat> {
+    let cache = MATS.get_or_init(Default::default);
+    if let Some(m) = cache.lock().unwrap().get(&seed) {
+        return m.clone();
+    }
+    let m = Arc::new(build_mat(seed));
+    let mut g = cache.lock().unwrap();
+    if g.len() > 4096 {
+        g.clear();
+    }
+    g.insert(seed, m.clone());
+    m
+}
+
+fn build_mat(seed: u64) -> PoolMat {
+    let cold_sk = SigningKey::from_bytes(&seed32(seed, 1));
+    let cold_vk = cold_sk.verifying_key().to_bytes();
+    let mut buf = vec![0u8; KES_BUF];
+    let mut kseed = seed32(seed, 2);
+    let (mut sk, pk) = Sum6Kes::keygen(&mut buf, &mut kseed);
+    let mut kes_vk = [0u8; 32];
+    kes_vk.copy_from_slice(pk.as_bytes());
+    let mut kes_snap = vec![sk.clone_sk()];
+    for _ in 0..MAX_EVO {
+        sk.update().expect("KES update below the last period");
+        kes_snap.push(sk.clone_sk());
+    }
+    let mut rng = ChaCha20Rng::from_seed(seed32(seed, 3));
+    let init = Initializer::new(Parameters { m: 10, k: 5, phi_f: 0.2 }, 1, &mut rng);
+    let vkpop = init.get_verification_key_proof_of_possession_for_concatenation().to_bytes();
+    let pool_id = pool_id_of(&cold_vk);
+    PoolMat { cold_sk, cold_vk, kes_vk, kes_snap, vkpop, pool_id }
+}
+
+impl PoolMat {
+    fn kes_sign(&self, evolution: u32, msg: &[u8]) -> Vec<u8> {
+        let mut buf = self.kes_snap[evolution.min(MAX_EVO) as usize].clone();
+        let sk = Sum6Kes::from_bytes(&mut buf).expect("KES key snapshot");
+        sk.sign(msg).to_bytes().to_vec()
+    }
+    fn cert_sign(&self, kes_vk: &[u8; 32], issue: u64, start: u64) -> [u8; 64] {
+        self.cold_sk.sign(&cert_message(kes_vk, issue, start)).to_bytes()
+    }
+}
+
+/// message signed by the cold key (Cardano operational certificate): KES vk ‖ issue number BE ‖ start period BE
+fn cert_message(kes_vk: &[u8; 32], issue: u64, start: u64) -> [u8; 48] {
+    let mut m = [0u8; 48];
+    m[..32].copy_from_slice(kes_vk);
+    m[32..40].copy_from_slice(&issue.to_be_bytes());
+    m[40..].copy_from_slice(&start.to_be_bytes());
+    m
+}
+
+/// own bech32 (BIP-173) encoder, independent of the crate used by the code under test
+fn bech32(hrp: &str, data: &[u8]) -> String {
+    const CHARSET: &[u8] = b"qpzry9x8gf2tvdw0s3jn54khce6mua7l";
+    fn polymod(v: &[u8]) -> u32 {
+        const G: [u32; 5] = [0x3b6a57b2, 0x26508e6d, 0x1ea119fa, 0x3d4233dd, 0x2a1462b3];
+        let mut chk = 1u32;
+        for x in v {
+            let b = chk >> 25;
+            chk = ((chk & 0x1ff_ffff) << 5) ^ (*x as u32);
+            for (i, g) in G.iter().enumerate() {
+                if (b >> i) & 1 == 1 {
+                    chk ^= g;
+                }
+            }
+        }
+        chk
+    }
+    let mut values = vec![];
+    let (mut acc, mut bits) = (0u32, 0u32);
+    for b in data {
+        acc = ((acc << 8) | *b as u32) & 0xfff;
+        bits += 8;
+        while bits >= 5 {
+            bits -= 5;
+            values.push(((acc >> bits) & 31) as u8);
+        }
+    }
+    if bits > 0 {
+        values.push(((acc << (5 - bits)) & 31) as u8);
+    }
+    let mut v: Vec<u8> = hrp.bytes().map(|c| c >> 5).collect();
+    v.push(0);
+    v.extend(hrp.bytes().map(|c| c & 31));
+    v.extend(&values);
+    v.extend([0u8; 6]);
+    let pm = polymod(&v) ^ 1;
+    let mut out = format!("{hrp}1");
+    for x in &values {
+        out.push(CHARSET[*x as usize] as char);
+    }
+    for i in 0..6 {
+        out.push(CHARSET[((pm >> (5 * (5 - i))) & 31) as usize] as char);
+    }
+    out
+}
+
+/// pool id = bech32("pool", Blake2b-224(cold verification key))
+pub fn pool_id_of(cold_vk: &[u8; 32]) -> String {
+    let mut h = Blake2b::<U28>::new();
+    h.update(cold_vk);
+    bech32("pool", &h.finalize())
+}
+
+// ------------------------------------------------------------------------------------------- case model
+
+#[derive(Clone, Debug, Serialize, Deserialize, PartialEq)]
+pub struct PoolSpec {
+    pub seed: u64,
+    pub start: u64,
+    pub issue: u64,
+    pub e_sig: u8,
+    /// stake in the round's distribution (None = pool absent)
+    pub stake: Option<u64>,
+}
+
+#[derive(Clone, Copy, Debug, Serialize, Deserialize, PartialEq)]
+pub enum Who {
+    Own,
+    Other,
+    Fresh(u8),
+}
+
+#[derive(Clone, Copy, Debug, Serialize, Deserialize, PartialEq)]
+pub enum EvoSel {
+    /// the signing pool's own e_sig
+    Sig,
+    Abs(u8),
+}
+
+#[derive(Clone, Copy, Debug, Serialize, Deserialize, PartialEq)]
+pub enum Payload {
+    Current,
+    VkOnly,
+    PopOnly,
+    Swapped,
+    OtherPools,
+    Suffix,
+    Empty,
+}
+
+#[derive(Clone, Copy, Debug, Serialize, Deserialize, PartialEq)]
+pub enum AnnSel {
+    /// evolution of the current signature + d
+    Rel(i8),
+    Abs(u64),
+    Missing,
+}
+
+#[derive(Clone, Copy, Debug, Serialize, Deserialize, PartialEq)]
+pub enum ClaimSel {
+    Others,
+    Fresh(u8),
+    Garbage,
+    Empty,
+    Missing,
+}
+
+#[derive(Clone, Copy, Debug, Serialize, Deserialize, PartialEq)]
+pub enum Mut {
+    CertKesVk(Who),
+    CertKesVkFlip { byte: u8, bit: u8 },
+    CertIssue(u64),
+    CertStart(u64),
+    CertSigFlip { byte: u8, bit: u8 },
+    CertSigFrom(Who),
+    ColdVk(Who),
+    ColdVkFlip { byte: u8, bit: u8 },
+    ResignCert(Who),
+    WholeCert(Who),
+    DropCert,
+    KesSigFlip { pos: u16, bit: u8 },
+    KesSigFrom(Who),
+    ResignKes { who: Who, evo: EvoSel, over: Payload },
+    DropKesSig,
+    Announce(AnnSel),
+    VkPop(Who),
+    Vk(Who),
+    Pop(Who),
+    PopK1(Who),
+    PopK2(Who),
+    PopSwapHalves,
+    VkPopFlip { pos: u8, bit: u8 },
+    Claim(ClaimSel),
+}
+
+fn mut_name(m: &Mut) -> String {
+    let s = format!("{m:?}");
+    let head = s.split([' ', '{', '(']).next().unwrap_or("").to_string();
+    let who = |w: &Who| match w {
+        Who::Own => "Own",
+        Who::Other => "Other",
+        Who::Fresh(_) => "Fresh",
+    };
+    match m {
+        Mut::CertKesVk(w) | Mut::CertSigFrom(w) | Mut::ColdVk(w) | Mut::ResignCert(w) | Mut::WholeCert(w) | Mut::KesSigFrom(w) | Mut::VkPop(w) | Mut::Vk(w) | Mut::Pop(w) | Mut::PopK1(w) | Mut::PopK2(w) => {
+            format!("{head}:{}", who(w))
+        }
+        Mut::ResignKes { who: w, evo, over } => format!(
+            "{head}:{}:{}:{over:?}",
+            who(w),
+            match evo {
+                EvoSel::Sig => "sig".to_string(),
+                EvoSel::Abs(e) if *e == 0 || *e == 1 || *e as u32 >= MAX_EVO - 1 => format!("abs{}", (*e as u32).min(MAX_EVO)),
+                EvoSel::Abs(_) => "abs".to_string(),
+            }
+        ),
+        Mut::Announce(a) => match a {
+            AnnSel::Rel(d) => format!("{head}:rel{d:+}"),
+            AnnSel::Abs(v) if *v <= 1 || (62..=66).contains(v) => format!("{head}:abs{v}"),
+            AnnSel::Abs(v) if *v >= u32::MAX as u64 => format!("{head}:huge"),
+            AnnSel::Abs(_) => format!("{head}:abs"),
+            AnnSel::Missing => format!("{head}:missing"),
+        },
+        Mut::Claim(c) => format!("{head}:{}", format!("{c:?}").split('(').next().unwrap_or("")),
+        _ => head,
+    }
+}
+
+#[derive(Clone, Debug, Serialize, Deserialize, PartialEq)]
+pub struct Attempt {
+    pub base: u16,
+    pub other: u16,
+    pub muts: Vec<Mut>,
+}
+
+#[derive(Clone, Debug, Serialize, Deserialize, PartialEq)]
+pub enum AttemptSpec {
+    New(Attempt),
+    /// submit an earlier attempt again, byte for byte
+    Repeat { of: u16 },
+    /// the key (vk‖PoP) of an earlier attempt, certified by `pool`'s own opcert and KES key
+    SameKeyAs { of: u16, pool: u16 },
+}
+
+#[derive(Clone, Debug, Serialize, Deserialize)]
+pub struct Case {
+    pub pools: Vec<PoolSpec>,
+    pub fresh: Vec<u64>,
+    /// further pools of the distribution that never register: (seed of the cold key, stake)
+    pub extra: Vec<(u64, u64)>,
+    pub attempts: Vec<AttemptSpec>,
+}
+
+/// A registration as raw bytes (what goes over the wire).
+#[derive(Clone, Debug, PartialEq)]
+pub struct Reg {
+    has_cert: bool,
+    kes_vk: [u8; 32],
+    issue: u64,
+    start: u64,
+    cert_sig: [u8; 64],
+    cold_vk: [u8; 32],
+    kes_sig: Option<Vec<u8>>,
+    /// by construction: evolution at which the current KES signature was made (None = unknown after surgery)
+    sig_evo: Option<u32>,
+    vkpop: [u8; 192],
+    announced: Option<u64>,
+    claim: Option<String>,
+}
+
+fn honest_reg(p: &PoolSpec) -> Reg {
+    let m = mat(p.seed);
+    let e = (p.e_sig as u32).min(MAX_EVO);
+    Reg {
+        has_cert: true,
+        kes_vk: m.kes_vk,
+        issue: p.issue,
+        start: p.start,
+        cert_sig: m.cert_sign(&m.kes_vk, p.issue, p.start),
+        cold_vk: m.cold_vk,
+        kes_sig: Some(m.kes_sign(e, &m.vkpop)),
+        sig_evo: Some(e),
+        vkpop: m.vkpop,
+        announced: Some(e as u64),
+        claim: Some(m.pool_id.clone()),
+    }
+}
+
+struct Ctx<'a> {
+    own: &'a PoolSpec,
+    other: &'a PoolSpec,
+    fresh: &'a [u64],
+}
+
+impl Ctx<'_> {
+    fn spec(&self, w: Who) -> PoolSpec {
+        match w {
+            Who::Own => self.own.clone(),
+            Who::Other => self.other.clone(),
+            Who::Fresh(i) => PoolSpec { seed: self.fresh[i as usize % self.fresh.len().max(1)], start: 0, issue: 0, e_sig: 0, stake: None },
+        }
+    }
+}
+
+/// apply one mutation; false = not applicable / no change
+fn apply(reg: &mut Reg, m: &Mut, cx: &Ctx) -> bool {
+    let before = reg.clone();
+    match *m {
+        Mut::CertKesVk(w) => reg.kes_vk = mat(cx.spec(w).seed).kes_vk,
+        Mut::CertKesVkFlip { byte, bit } => reg.kes_vk[byte as usize % 32] ^= 1 << (bit % 8),
+        Mut::CertIssue(v) => reg.issue = v,
+        Mut::CertStart(v) => reg.start = v,
+        Mut::CertSigFlip { byte, bit } => reg.cert_sig[byte as usize % 64] ^= 1 << (bit % 8),
+        Mut::CertSigFrom(w) => {
+            let s = cx.spec(w);
+            let mm = mat(s.seed);
+            reg.cert_sig = mm.cert_sign(&mm.kes_vk, s.issue, s.start);
+        }
+        Mut::ColdVk(w) => reg.cold_vk = mat(cx.spec(w).seed).cold_vk,
+        Mut::ColdVkFlip { byte, bit } => reg.cold_vk[byte as usize % 32] ^= 1 << (bit % 8),
+        Mut::ResignCert(w) => reg.cert_sig = mat(cx.spec(w).seed).cert_sign(&reg.kes_vk, reg.issue, reg.start),
+        Mut::WholeCert(w) => {
+            let h = honest_reg(&cx.spec(w));
+            reg.kes_vk = h.kes_vk;
+            reg.issue = h.issue;
+            reg.start = h.start;
+            reg.cert_sig = h.cert_sig;
+            reg.cold_vk = h.cold_vk;
+            reg.has_cert = true;
+        }
+        Mut::DropCert => reg.has_cert = false,
+        Mut::KesSigFlip { pos, bit } => {
+            let Some(s) = reg.kes_sig.as_mut() else { return false };
+            let n = s.len();
+            s[pos as usize % n] ^= 1 << (bit % 8);
+            reg.sig_evo = None;
+        }
+        Mut::KesSigFrom(w) => {
+            let h = honest_reg(&cx.spec(w));
+            reg.kes_sig = h.kes_sig;
+            reg.sig_evo = h.sig_evo;
+        }
+        Mut::ResignKes { who, evo, over } => {
+            let s = cx.spec(who);
+            let e = match evo {
+                EvoSel::Sig => s.e_sig as u32,
+                EvoSel::Abs(e) => e as u32,
+            }
+            .min(MAX_EVO);
+            let msg: Vec<u8> = match over {
+                Payload::Current => reg.vkpop.to_vec(),
+                Payload::VkOnly => reg.vkpop[..96].to_vec(),
+                Payload::PopOnly => reg.vkpop[96..].to_vec(),
+                Payload::Swapped => [&reg.vkpop[96..], &reg.vkpop[..96]].concat(),
+                Payload::OtherPools => mat(cx.other.seed).vkpop.to_vec(),
+                Payload::Suffix => [&reg.vkpop[..], &[0u8][..]].concat(),
+                Payload::Empty => vec![],
+            };
+            reg.kes_sig = Some(mat(s.seed).kes_sign(e, &msg));
+            reg.sig_evo = Some(e);
+            // a re-signature always counts as applied (it differs from the previous one unless it is the same
+            // deterministic signature, which is a no-op)
+        }
+        Mut::DropKesSig => reg.kes_sig = None,
+        Mut::Announce(a) => {
+            reg.announced = match a {
+                AnnSel::Rel(d) => {
+                    let base = reg.sig_evo.unwrap_or(cx.own.e_sig as u32) as i64 + d as i64;
+                    if base < 0 {
+                        return false;
+                    }
+                    Some(base as u64)
+                }
+                AnnSel::Abs(v) => Some(v),
+                AnnSel::Missing => None,
+            }
+        }
+        Mut::VkPop(w) => reg.vkpop = mat(cx.spec(w).seed).vkpop,
+        Mut::Vk(w) => reg.vkpop[..96].copy_from_slice(&mat(cx.spec(w).seed).vkpop[..96]),
+        Mut::Pop(w) => reg.vkpop[96..].copy_from_slice(&mat(cx.spec(w).seed).vkpop[96..]),
+        Mut::PopK1(w) => reg.vkpop[96..144].copy_from_slice(&mat(cx.spec(w).seed).vkpop[96..144]),
+        Mut::PopK2(w) => reg.vkpop[144..].copy_from_slice(&mat(cx.spec(w).seed).vkpop[144..]),
+        Mut::PopSwapHalves => {
+            let (a, b): (Vec<u8>, Vec<u8>) = (reg.vkpop[96..144].to_vec(), reg.vkpop[144..].to_vec());
+            reg.vkpop[96..144].copy_from_slice(&b);
+            reg.vkpop[144..].copy_from_slice(&a);
+        }
+        Mut::VkPopFlip { pos, bit } => reg.vkpop[pos as usize % 192] ^= 1 << (bit % 8),
+        Mut::Claim(c) => {
+            reg.claim = match c {
+                ClaimSel::Others => Some(mat(cx.other.seed).pool_id.clone()),
+                ClaimSel::Fresh(i) => Some(mat(cx.spec(Who::Fresh(i)).seed).pool_id.clone()),
+                ClaimSel::Garbage => Some("pool1notapoolidatall".to_string()),
+                ClaimSel::Empty => Some(String::new()),
+                ClaimSel::Missing => None,
+            }
+        }
+    }
+    *reg != before
+}
+
+// ------------------------------------------------------------------------------------------- the oracle
+
+fn flag(viol: &mut Vec<(String, String)>, key: impl Into<String>, what: impl Into<String>) {
+    viol.push((key.into(), what.into()));
+}
+
+/// report the first violation that is not the recorded narrow class (so that it can never mask another one)
+fn commit(rep: &mut Report, viol: Vec<(String, String)>) {
+    let pick = viol.iter().find(|v| v.0 != KEY_ALIAS).or(viol.first());
+    if let Some((k, w)) = pick {
+        rep.violation(k.clone(), w.clone());
+    }
+}
+
+#[derive(Clone, Debug, Default)]
+struct Conj {
+    cert: bool,
+    /// periods 0..=63 at which the KES signature verifies for (cert.kes_vk, vk‖pop)
+    kes_at: Vec<u32>,
+    kes: bool,
+    pop: bool,
+    dist: bool,
+    fresh: bool,
+    derived_id: String,
+}
+
+impl Conj {
+    #[allow(dead_code)]
+    fn all(&self) -> bool {
+        self.cert && self.kes && self.pop && self.dist && self.fresh
+    }
+    fn broken(&self) -> Vec<&'static str> {
+        let mut v = vec![];
+        if !self.cert {
+            v.push("opcert");
+        }
+        if !self.kes {
+            v.push("kes");
+        }
+        if !self.pop {
+            v.push("pop");
+        }
+        if !self.dist {
+            v.push("dist");
+        }
+        if !self.fresh {
+            v.push("dup");
+        }
+        v
+    }
+}
+
+fn within_one(t: u32, announced: u64) -> bool {
+    (t as u64).abs_diff(announced) <= 1
+}
+
+/// proof of possession, checked with blst directly: vk ∈ G2 valid, k1 = sig_sk("PoP"), e(k2, g2) = e(g1, vk)
+fn pop_valid(vkpop: &[u8; 192]) -> bool {
+    use blst::min_sig::{PublicKey, Signature};
+    use blst::*;
+    let Ok(pk) = PublicKey::from_bytes(&vkpop[..96]) else { return false };
+    if pk.validate().is_err() {
+        return false;
+    }
+    let Ok(k1) = Signature::from_bytes(&vkpop[96..144]) else { return false };
+    if k1.verify(true, b"PoP", &[], &[], &pk, false) != BLST_ERROR::BLST_SUCCESS {
+        return false;
+    }
+    unsafe {
+        let mut k2 = blst_p1_affine::default();
+        if blst_p1_uncompress(&mut k2, vkpop[144..].as_ptr()) != BLST_ERROR::BLST_SUCCESS {
+            return false;
+        }
+        if !blst_p1_affine_in_g1(&k2) {
+            return false;
+        }
+        let mut vk = blst_p2_affine::default();
+        if blst_p2_uncompress(&mut vk, vkpop[..96].as_ptr()) != BLST_ERROR::BLST_SUCCESS {
+            return false;
+        }
+        let g1 = *blst_p1_affine_generator();
+        let g2 = *blst_p2_affine_generator();
+        let lhs = blst_fp12::miller_loop(&vk, &g1);
+        let rhs = blst_fp12::miller_loop(&g2, &k2);
+        blst_fp12_finalverify(&lhs, &rhs)
+    }
+}
+
+fn evaluate(reg: &Reg, announced: Option<u64>, dist: &BTreeMap<String, u64>, registered: &BTreeSet<Vec<u8>>) -> Conj {
+    let mut c = Conj::default();
+    // operational certificate signed by the cold key it names
+    if reg.has_cert {
+        if let Ok(vk) = VerifyingKey::from_bytes(&reg.cold_vk) {
+            let sig = EdSignature::from_bytes(&reg.cert_sig);
+            c.cert = vk.verify(&cert_message(&reg.kes_vk, reg.issue, reg.start), &sig).is_ok();
+        }
+        c.derived_id = pool_id_of(&reg.cold_vk);
+    }
+    // KES signature over vk‖pop by the certificate's KES key, at which evolutions?
+    if let (true, Some(sig)) = (reg.has_cert, &reg.kes_sig) {
+        if let (Ok(sig), Ok(pk)) = (Sum6KesSig::from_bytes(sig), KesPublicKey::from_bytes(&reg.kes_vk)) {
+            for t in 0..=MAX_EVO {
+                if sig.verify(t, &pk, &reg.vkpop).is_ok() {
+                    c.kes_at.push(t);
+                }
+            }
+        }
+    }
+    c.kes = match announced {
+        Some(a) => c.kes_at.iter().any(|t| within_one(*t, a)),
+        None => false,
+    };
+    c.pop = pop_valid(&reg.vkpop);
+    c.dist = reg.has_cert && dist.contains_key(&c.derived_id);
+    c.fresh = !registered.contains(&reg.vkpop[..96].to_vec());
+    c
+}
+
+/// raw bytes → the typed objects of the code under test (None = a component does not even decode)
+struct Typed {
+    opcert: Option<OpCert>,
+    vk: VerificationKeyProofOfPossessionForConcatenation,
+    sig: Option<Sum6KesSig>,
+}
+
+fn typed(reg: &Reg) -> Result<Typed, String> {
+    let opcert = if reg.has_cert {
+        let o = OpCertWithoutColdVerificationKey::try_new(&reg.kes_vk, reg.issue, KesPeriod(reg.start), &reg.cert_sig).map_err(|e| format!("opcert: {e}"))?;
+        let cold = VerifyingKey::from_bytes(&reg.cold_vk).map_err(|e| format!("cold vk: {e}"))?;
+        Some(OpCert::from((o, cold)))
+    } else {
+        None
+    };
+    let vk = VerificationKeyProofOfPossessionForConcatenation::from_bytes(&reg.vkpop).map_err(|e| format!("vk/pop: {e}"))?;
+    let sig = match &reg.kes_sig {
+        Some(s) => Some(Sum6KesSig::from_bytes(s).map_err(|e| format!("kes sig: {e:?}"))?),
+        None => None,
+    };
+    Ok(Typed { opcert, vk, sig })
+}
+
+fn window_label(c: &Conj, announced: Option<u64>) -> Option<String> {
+    let a = announced?;
+    if !(c.cert && c.pop && c.dist && c.fresh) || c.kes_at.len() != 1 {
+        return None;
+    }
+    let d = c.kes_at[0] as i128 - a as i128;
+    Some(if d.abs() <= 3 { format!("{d:+}") } else { "far".to_string() })
+}
+
+fn distribution(c: &Case) -> BTreeMap<String, u64> {
+    let mut d = BTreeMap::new();
+    for (seed, stake) in &c.extra {
+        let cold = SigningKey::from_bytes(&seed32(*seed, 1)).verifying_key().to_bytes();
+        d.insert(pool_id_of(&cold), *stake);
+    }
+    for p in &c.pools {
+        if let Some(s) = p.stake {
+            d.insert(mat(p.seed).pool_id.clone(), s);
+        }
+    }
+    d
+}
+
+struct Resolved {
+    reg: Reg,
+    names: Vec<String>,
+    kind: &'static str,
+}
+
+fn resolve(c: &Case, earlier: &[Resolved], spec: &AttemptSpec) -> Resolved {
+    let n = c.pools.len();
+    match spec {
+        AttemptSpec::New(a) => {
+            let bi = pick_index(a.base, n);
+            let mut oi = pick_index(a.other, n.saturating_sub(1).max(1));
+            if oi >= bi && n > 1 {
+                oi = (oi + 1) % n;
+            }
+            if oi == bi && n > 1 {
+                oi = (bi + 1) % n;
+            }
+            let cx = Ctx { own: &c.pools[bi], other: &c.pools[oi], fresh: &c.fresh };
+            let mut reg = honest_reg(cx.own);
+            let mut names = vec![];
+            for m in &a.muts {
+                if apply(&mut reg, m, &cx) {
+                    names.push(mut_name(m));
+                }
+            }
+            Resolved { reg, names, kind: "new" }
+        }
+        AttemptSpec::Repeat { of } => {
+            if earlier.is_empty() {
+                return Resolved { reg: honest_reg(&c.pools[0]), names: vec![], kind: "new" };
+            }
+            let e = &earlier[pick_index(*of, earlier.len())];
+            Resolved { reg: e.reg.clone(), names: e.names.clone(), kind: "repeat" }
+        }
+        AttemptSpec::SameKeyAs { of, pool } => {
+            let p = &c.pools[pick_index(*pool, n)];
+            let mut reg = honest_reg(p);
+            if let Some(e) = earlier.get(pick_index(*of, earlier.len().max(1))) {
+                reg.vkpop = e.reg.vkpop;
+            }
+            reg.kes_sig = Some(mat(p.seed).kes_sign(p.e_sig as u32, &reg.vkpop));
+            Resolved { reg, names: vec![], kind: "same-key-recertified" }
+        }
+    }
+}
+
+fn is_splice_a_sig_for_b_key(reg: &Reg, c: &Case) -> bool {
+    // opcert + KES signature are the honest ones of one pool, the key is the honest key of another pool
+    c.pools.iter().any(|a| {
+        let ha = honest_reg(a);
+        ha.cold_vk == reg.cold_vk
+            && ha.cert_sig == reg.cert_sig
+            && ha.kes_sig == reg.kes_sig
+            && c.pools.iter().any(|b| b.seed != a.seed && mat(b.seed).vkpop == reg.vkpop)
+    })
+}
+
+fn case_fn(c: &Case) -> Report {
+    let mut rep = Report::new();
+    let mut viol: Vec<(String, String)> = vec![];
+    if c.pools.is_empty() || c.fresh.is_empty() {
+        rep.discard("empty case");
+        return rep;
+    }
+    let dist = distribution(c);
+    let dist_vec: Vec<(String, u64)> = dist.iter().map(|(k, v)| (k.clone(), *v)).collect();
+    let mut key_reg = KeyRegWrapper::init(&dist_vec);
+    let mut registered: BTreeSet<Vec<u8>> = BTreeSet::new();
+    let mut expected_closed: Vec<(Vec<u8>, u64)> = vec![];
+    let mut resolved: Vec<Resolved> = vec![];
+    let mut shapes = vec![];
+    let mut any_mutation = false;
+    for spec in &c.attempts {
+        let r = resolve(c, &resolved, spec);
+        let reg = r.reg.clone();
+        let names = r.names.clone();
+        let kind = r.kind;
+        resolved.push(r);
+        for nme in &names {
+            rep.label(format!("mut:{nme}"));
+        }
+        rep.label(format!("attempt:{kind}"));
+        if !names.is_empty() || kind != "new" {
+            any_mutation = true;
+        }
+        let conj = evaluate(&reg, reg.announced, &dist, &registered);
+        let t = match typed(&reg) {
+            Ok(t) => t,
+            Err(_) => {
+                rep.label("rejected-at-decode");
+                shapes.push(format!("{names:?}/{kind}/undecodable"));
+                continue;
+            }
+        };
+        let params = SignerRegistrationParameters {
+            party_id: reg.claim.clone(),
+            operational_certificate: t.opcert.map(ProtocolKey::new),
+            verification_key_for_concatenation: ProtocolKey::new(t.vk),
+            verification_key_signature_for_concatenation: t.sig.map(ProtocolKey::new),
+            kes_evolutions: reg.announced.map(KesEvolutions),
+        };
+        let verdict = catch(|| key_reg.register(params));
+        let accepted = match &verdict {
+            Ok(Ok(_)) => true,
+            Ok(Err(_)) => false,
+            Err(_) => {
+                rep.label("register-panicked");
+                false
+            }
+        };
+        let broken = conj.broken();
+        if broken.len() == 1 {
+            rep.label(format!("only-broken:{}", broken[0]));
+        } else if broken.is_empty() {
+            rep.label("all-conjuncts-hold");
+        }
+        let win = window_label(&conj, reg.announced);
+        if let Some(w) = &win {
+            rep.label(format!("window:{w}:{}", if accepted { "accepted" } else { "rejected" }));
+            if let Some(t0) = conj.kes_at.first() {
+                if *t0 == 0 || *t0 == MAX_EVO {
+                    rep.label(format!("sig-evolution:{t0}"));
+                }
+            }
+            if let Some(a) = reg.announced {
+                if a >= MAX_EVO as u64 {
+                    rep.label(format!("announced:{}", if a <= 66 { a.to_string() } else { "huge".into() }));
+                }
+            }
+        }
+        let splice = is_splice_a_sig_for_b_key(&reg, c);
+        if splice {
+            rep.label("splice:kes-signature-of-A-for-key-of-B");
+        }
+        if let Some(claim) = &reg.claim {
+            if reg.has_cert && *claim != conj.derived_id {
+                rep.label("claimed-party-differs");
+            }
+        }
+        shapes.push(format!("{names:?}/{kind}/broken:{broken:?}/win:{win:?}/acc:{accepted}"));
+        if !accepted {
+            rep.label("rejected");
+            if broken.is_empty() {
+                // not a violation of the statement (which constrains acceptance only)
+                rep.label(if names.is_empty() && kind == "new" { "honest-rejected" } else { "valid-variant-rejected" });
+            }
+            continue;
+        }
+        rep.label("accepted");
+        if names.is_empty() && kind == "new" {
+            rep.label("honest-accepted");
+        }
+        let describe = || format!("attempt {names:?} ({kind}) accepted; conjuncts {conj:?}; announced {:?}; claim {:?}", reg.announced, reg.claim);
+        if !conj.cert {
+            flag(&mut viol, "accepted-opcert-not-signed-by-cold-key", describe());
+        } else if conj.kes_at.is_empty() {
+            flag(&mut viol, "accepted-kes-signature-invalid-for-this-key", describe());
+        } else if !conj.kes {
+            let key = if conj.kes_at == [MAX_EVO] && reg.announced.is_some_and(|a| a > MAX_EVO as u64 + 1) {
+                KEY_ALIAS
+            } else {
+                "accepted-kes-evolution-outside-window"
+            };
+            flag(&mut viol, key, describe());
+        } else if !conj.pop {
+            flag(&mut viol, "accepted-invalid-proof-of-possession", describe());
+        } else if !conj.dist {
+            flag(&mut viol, "accepted-pool-not-in-stake-distribution", describe());
+        } else if !conj.fresh {
+            flag(&mut viol, "accepted-key-already-registered", describe());
+        }
+        if let Ok(Ok(pid)) = &verdict {
+            if *pid != conj.derived_id {
+                flag(&mut viol, "returned-party-id-not-derived-from-cold-key", format!("returned {pid}, derived {}; {}", conj.derived_id, describe()));
+            }
+        }
+        registered.insert(reg.vkpop[..96].to_vec());
+        expected_closed.push((reg.vkpop[..96].to_vec(), dist.get(&conj.derived_id).copied().unwrap_or(u64::MAX)));
+    }
+    // recorded stakes
+    let total: u128 = expected_closed.iter().map(|e| e.1 as u128).sum();
+    match catch(|| key_reg.close(&Parameters { m: 10, k: 5, phi_f: 0.2 })) {
+        Ok(Ok(closed)) => {
+            let mut got: Vec<(Vec<u8>, u64)> = closed
+                .closed_registration_entries
+                .iter()
+                .map(|e| (e.get_verification_key_for_concatenation().to_bytes().to_vec(), e.get_stake()))
+                .collect();
+            got.sort();
+            let mut want = expected_closed.clone();
+            want.sort();
+            if got != want {
+                let gs: Vec<u64> = got.iter().map(|g| g.1).collect();
+                let ws: Vec<u64> = want.iter().map(|g| g.1).collect();
+                flag(&mut viol, 
+                    "recorded-stake-not-the-distribution-value",
+                    format!("closed registration holds stakes {gs:?} (by key order), the distribution gives {ws:?} for the accepted pools; attempts {shapes:?}"),
+                );
+            } else if !want.is_empty() {
+                rep.label("closed-registration-checked");
+            }
+        }
+        Ok(Err(_)) => {
+            rep.label(if total == 0 { "close-refused:zero-total" } else { "close-refused:other" });
+            if total != 0 && total <= u64::MAX as u128 {
+                rep.label("close-refused-unexpectedly");
+            }
+        }
+        Err(_) => {
+            rep.label("close-panicked");
+        }
+    }
+    if any_mutation {
+        rep.nontrivial(shapes.join(" ; "));
+    }
+    commit(&mut rep, viol);
+    rep
+}
+
+// ------------------------------------------------------------------------------- aggregator verifier
+
+#[derive(Clone, Debug, Serialize, Deserialize)]
+pub struct AggCase {
+    pub pools: Vec<PoolSpec>,
+    pub fresh: Vec<u64>,
+    pub extra: Vec<(u64, u64)>,
+    pub attempt: Attempt,
+    /// current KES period of the chain = start period of the submitted certificate + evolution of the signature + d
+    pub period: PeriodSel,
+}
+
+#[derive(Clone, Copy, Debug, Serialize, Deserialize)]
+pub enum PeriodSel {
+    Rel(i8),
+    Abs(u64),
+    Unknown,
+}
+
+struct Observer(Option<u64>);
+
+#[async_trait::async_trait]
+impl mithril_cardano_node_chain::chain_observer::ChainObserver for Observer {
+    async fn get_current_datums(
+        &self,
+        _address: &mithril_cardano_node_chain::entities::ChainAddress,
+    ) -> Result<Vec<mithril_cardano_node_chain::entities::TxDatum>, mithril_cardano_node_chain::chain_observer::ChainObserverError> {
+        Ok(vec![])
+    }
+    async fn get_current_era(&self) -> Result<Option<String>, mithril_cardano_node_chain::chain_observer::ChainObserverError> {
+        Ok(None)
+    }
+    async fn get_current_epoch(&self) -> Result<Option<mithril_common::entities::Epoch>, mithril_cardano_node_chain::chain_observer::ChainObserverError> {
+        Ok(None)
+    }
+    async fn get_current_chain_point(&self) -> Result<Option<mithril_common::entities::ChainPoint>, mithril_cardano_node_chain::chain_observer::ChainObserverError> {
+        Ok(None)
+    }
+    async fn get_current_stake_distribution(
+        &self,
+    ) -> Result<Option<mithril_common::entities::StakeDistribution>, mithril_cardano_node_chain::chain_observer::ChainObserverError> {
+        Ok(None)
+    }
+    async fn get_current_kes_period(&self) -> Result<Option<KesPeriod>, mithril_cardano_node_chain::chain_observer::ChainObserverError> {
+        Ok(self.0.map(KesPeriod))
+    }
+}
+
+fn agg_case(c: &AggCase) -> Report {
+    use mithril_aggregator::{MithrilSignerRegistrationVerifier, SignerRegistrationVerifier};
+    let mut rep = Report::new();
+    let mut viol: Vec<(String, String)> = vec![];
+    if c.pools.is_empty() || c.fresh.is_empty() {
+        rep.discard("empty case");
+        return rep;
+    }
+    let as_case = Case { pools: c.pools.clone(), fresh: c.fresh.clone(), extra: c.extra.clone(), attempts: vec![] };
+    let dist = distribution(&as_case);
+    let r = resolve(&as_case, &[], &AttemptSpec::New(c.attempt.clone()));
+    let (reg, names) = (r.reg, r.names);
+    for nme in &names {
+        rep.label(format!("agg-mut:{nme}"));
+    }
+    let period = match c.period {
+        PeriodSel::Rel(d) => {
+            let p = reg.start as i128 + reg.sig_evo.unwrap_or(0) as i128 + d as i128;
+            if p < 0 || p > u64::MAX as i128 {
+                rep.discard("period out of range");
+                return rep;
+            }
+            Some(p as u64)
+        }
+        PeriodSel::Abs(v) => Some(v),
+        PeriodSel::Unknown => None,
+    };
+    // the evolution the aggregator holds the signature against: chain period − certificate start period (documented
+    // in the verifier), 0 when the chain gives no period
+    let reference = if reg.has_cert { Some(period.unwrap_or(0).saturating_sub(reg.start)) } else { None };
+    let conj = evaluate(&reg, reference, &dist, &BTreeSet::new());
+    let t = match typed(&reg) {
+        Ok(t) => t,
+        Err(_) => {
+            rep.label("agg-rejected-at-decode");
+            return rep;
+        }
+    };
+    let signer = mithril_common::entities::Signer {
+        party_id: reg.claim.clone().unwrap_or_default(),
+        verification_key_for_concatenation: ProtocolKey::new(t.vk),
+        verification_key_signature_for_concatenation: t.sig.map(ProtocolKey::new),
+        operational_certificate: t.opcert.map(ProtocolKey::new),
+        kes_evolutions: reg.announced.map(KesEvolutions),
+    };
+    let verifier = MithrilSignerRegistrationVerifier::new(Arc::new(Observer(period)));
+    let rt = tokio::runtime::Builder::new_current_thread().enable_all().build().expect("runtime");
+    let verdict = catch(|| rt.block_on(verifier.verify(&signer, &dist)));
+    let broken = conj.broken();
+    if broken.len() == 1 {
+        rep.label(format!("agg-only-broken:{}", broken[0]));
+    }
+    let win = window_label(&conj, reference);
+    let accepted = matches!(verdict, Ok(Ok(_)));
+    if let Some(w) = &win {
+        rep.label(format!("agg-window:{w}:{}", if accepted { "accepted" } else { "rejected" }));
+    }
+    if matches!(verdict, Err(_)) {
+        rep.label("agg-verify-panicked");
+    }
+    rep.nontrivial(format!("agg {names:?} period:{:?} broken:{broken:?} win:{win:?} acc:{accepted}", match c.period {
+        PeriodSel::Rel(d) => format!("rel{d}"),
+        PeriodSel::Abs(v) => format!("abs{}", if v > 70 { 999 } else { v }),
+        PeriodSel::Unknown => "unknown".into(),
+    }));
+    let Ok(Ok(sws)) = verdict else {
+        rep.label("agg-rejected");
+        if broken.is_empty() {
+            rep.label("agg-valid-rejected");
+        }
+        return rep;
+    };
+    rep.label("agg-accepted");
+    let describe = || format!("aggregator verifier accepted {names:?}; chain period {period:?}, certificate start {}, conjuncts {conj:?}; claim {:?}", reg.start, reg.claim);
+    if !conj.cert {
+        flag(&mut viol, "agg-accepted-opcert-not-signed-by-cold-key", describe());
+    } else if conj.kes_at.is_empty() {
+        flag(&mut viol, "agg-accepted-kes-signature-invalid-for-this-key", describe());
+    } else if !conj.kes {
+        let key = if conj.kes_at == [MAX_EVO] && reference.is_some_and(|a| a > MAX_EVO as u64 + 1) {
+            KEY_ALIAS
+        } else {
+            "agg-accepted-kes-evolution-outside-window"
+        };
+        flag(&mut viol, key, describe());
+    } else if !conj.pop {
+        flag(&mut viol, "agg-accepted-invalid-proof-of-possession", describe());
+    } else if !conj.dist {
+        flag(&mut viol, "agg-accepted-pool-not-in-stake-distribution", describe());
+    }
+    if sws.party_id != conj.derived_id {
+        flag(&mut viol, "agg-recorded-party-id-not-derived-from-cold-key", format!("recorded {}, derived {}; {}", sws.party_id, conj.derived_id, describe()));
+    }
+    if Some(sws.stake) != dist.get(&conj.derived_id).copied() {
+        flag(&mut viol, 
+            "agg-recorded-stake-not-the-distribution-value",
+            format!("recorded stake {}, distribution[{}] = {:?}; {}", sws.stake, conj.derived_id, dist.get(&conj.derived_id), describe()),
+        );
+    }
+    if sws.verification_key_for_concatenation.to_bytes() != reg.vkpop {
+        flag(&mut viol, "agg-recorded-key-differs", describe());
+    }
+    if reg.claim.as_deref() != Some(conj.derived_id.as_str()) {
+        rep.label("agg-accepted-with-foreign-claim");
+    }
+    commit(&mut rep, viol);
+    rep
+}
+
+// ------------------------------------------------------------------------------------------- strategies
+
+fn who() -> impl Strategy<Value = Who> {
+    prop_oneof![4 => Just(Who::Other), 1 => Just(Who::Own), 2 => (0u8..4).prop_map(Who::Fresh)]
+}
+
+fn evo_sel() -> impl Strategy<Value = EvoSel> {
+    prop_oneof![3 => Just(EvoSel::Sig), 1 => Just(EvoSel::Abs(0)), 1 => Just(EvoSel::Abs(1)), 1 => Just(EvoSel::Abs(62)), 1 => Just(EvoSel::Abs(63)), 2 => (0u8..64).prop_map(EvoSel::Abs)]
+}
+
+fn ann_sel() -> impl Strategy<Value = AnnSel> {
+    prop_oneof![
+        10 => (-2i8..=2).prop_map(AnnSel::Rel),
+        1 => (-4i8..=4).prop_map(AnnSel::Rel),
+        4 => prop::sample::select(vec![0u64, 1, 62, 63, 64, 65, 66]).prop_map(AnnSel::Abs),
+        2 => prop::sample::select(vec![u64::MAX, u64::MAX - 1, u32::MAX as u64, u32::MAX as u64 + 1, u32::MAX as u64 + 63, (1u64 << 32) + 64]).prop_map(AnnSel::Abs),
+        1 => (0u64..80).prop_map(AnnSel::Abs),
+        1 => Just(AnnSel::Missing),
+    ]
+}
+
+fn payload() -> impl Strategy<Value = Payload> {
+    prop_oneof![
+        5 => Just(Payload::Current),
+        2 => Just(Payload::VkOnly),
+        1 => Just(Payload::PopOnly),
+        1 => Just(Payload::Swapped),
+        1 => Just(Payload::OtherPools),
+        1 => Just(Payload::Suffix),
+        1 => Just(Payload::Empty),
+    ]
+}
+
+fn small_or_edge_u64() -> impl Strategy<Value = u64> {
+    prop_oneof![Just(0u64), Just(1), Just(63), Just(64), Just(u64::MAX), 0u64..200, any::<u64>()]
+}
+
+fn mut_strategy() -> impl Strategy<Value = Mut> {
+    prop_oneof![
+        2 => who().prop_map(Mut::CertKesVk),
+        1 => (any::<u8>(), any::<u8>()).prop_map(|(byte, bit)| Mut::CertKesVkFlip { byte, bit }),
+        2 => small_or_edge_u64().prop_map(Mut::CertIssue),
+        2 => small_or_edge_u64().prop_map(Mut::CertStart),
+        2 => (any::<u8>(), any::<u8>()).prop_map(|(byte, bit)| Mut::CertSigFlip { byte, bit }),
+        2 => who().prop_map(Mut::CertSigFrom),
+        3 => who().prop_map(Mut::ColdVk),
+        1 => (any::<u8>(), any::<u8>()).prop_map(|(byte, bit)| Mut::ColdVkFlip { byte, bit }),
+        3 => who().prop_map(Mut::ResignCert),
+        2 => who().prop_map(Mut::WholeCert),
+        1 => Just(Mut::DropCert),
+        2 => (any::<u16>(), any::<u8>()).prop_map(|(pos, bit)| Mut::KesSigFlip { pos, bit }),
+        3 => who().prop_map(Mut::KesSigFrom),
+        6 => (who(), evo_sel(), payload()).prop_map(|(who, evo, over)| Mut::ResignKes { who, evo, over }),
+        1 => Just(Mut::DropKesSig),
+        8 => ann_sel().prop_map(Mut::Announce),
+        4 => who().prop_map(Mut::VkPop),
+        2 => who().prop_map(Mut::Vk),
+        2 => who().prop_map(Mut::Pop),
+        1 => who().prop_map(Mut::PopK1),
+        1 => who().prop_map(Mut::PopK2),
+        1 => Just(Mut::PopSwapHalves),
+        1 => (any::<u8>(), any::<u8>()).prop_map(|(pos, bit)| Mut::VkPopFlip { pos, bit }),
+        3 => prop_oneof![3 => Just(ClaimSel::Others), 1 => (0u8..4).prop_map(ClaimSel::Fresh), 1 => Just(ClaimSel::Garbage), 1 => Just(ClaimSel::Empty), 1 => Just(ClaimSel::Missing)].prop_map(Mut::Claim),
+    ]
+}
+
+/// mutation lists: single mutations, free pairs/triples, and the composites that break exactly one conjunct
+fn muts_strategy() -> impl Strategy<Value = Vec<Mut>> {
+    let resign_own = Mut::ResignKes { who: Who::Own, evo: EvoSel::Sig, over: Payload::Current };
+    prop_oneof![
+        2 => Just(vec![]),
+        12 => mut_strategy().prop_map(|m| vec![m]),
+        5 => prop::collection::vec(mut_strategy(), 2..=3),
+        // a key/PoP alteration re-certified by the own KES key: only the PoP / only the duplicate check can object
+        4 => (prop_oneof![who().prop_map(Mut::Pop), who().prop_map(Mut::PopK1), who().prop_map(Mut::PopK2), who().prop_map(Mut::Vk), who().prop_map(Mut::VkPop), Just(Mut::PopSwapHalves)])
+            .prop_map(move |m| vec![m, resign_own]),
+        // an opcert field changed and re-signed by own / other / fresh cold key (without and with naming that key)
+        4 => (prop_oneof![small_or_edge_u64().prop_map(Mut::CertIssue), small_or_edge_u64().prop_map(Mut::CertStart), who().prop_map(Mut::CertKesVk)], who(), any::<bool>())
+            .prop_map(|(m, w, name_it)| if name_it { vec![m, Mut::ColdVk(w), Mut::ResignCert(w)] } else { vec![m, Mut::ResignCert(w)] }),
+        // signature made at a boundary evolution, announced around it
+        5 => (prop::sample::select(vec![0u8, 1, 2, 31, 32, 61, 62, 63]), -3i8..=3)
+            .prop_map(|(e, d)| vec![Mut::ResignKes { who: Who::Own, evo: EvoSel::Abs(e), over: Payload::Current }, Mut::Announce(AnnSel::Rel(d))]),
+        2 => (prop::sample::select(vec![60u8, 61, 62, 63]), prop::sample::select(vec![62u64, 63, 64, 65, 66, 67, u64::MAX]))
+            .prop_map(|(e, a)| vec![Mut::ResignKes { who: Who::Own, evo: EvoSel::Abs(e), over: Payload::Current }, Mut::Announce(AnnSel::Abs(a))]),
+        // the other pool certifies this pool's key with its own material (valid unless that key is registered)
+        2 => Just(vec![Mut::WholeCert(Who::Other), Mut::ResignKes { who: Who::Other, evo: EvoSel::Sig, over: Payload::Current }, Mut::Announce(AnnSel::Rel(0))]),
+    ]
+}
+
+fn stake_strategy() -> impl Strategy<Value = u64> {
+    prop_oneof![1 => Just(0u64), 1 => Just(1u64), 4 => 1u64..1_000_000, 2 => 1u64..(1u64 << 50)]
+}
+
+fn pool_spec(seeds: Vec<u64>) -> impl Strategy<Value = PoolSpec> {
+    (
+        prop::sample::select(seeds),
+        prop_oneof![3 => Just(0u64), 2 => 0u64..1000, 1 => Just(u64::MAX - 64), 1 => Just(u64::MAX)],
+        prop_oneof![3 => Just(0u64), 1 => 0u64..10, 1 => Just(u64::MAX)],
+        prop_oneof![2 => Just(0u8), 1 => Just(1u8), 1 => Just(2u8), 1 => Just(61u8), 1 => Just(62u8), 2 => Just(63u8), 4 => 0u8..64],
+        prop_oneof![6 => stake_strategy().prop_map(Some), 1 => Just(None)],
+    )
+        .prop_map(|(seed, start, issue, e_sig, stake)| PoolSpec { seed, start, issue, e_sig, stake })
+}
+
+fn pools_strategy(seeds: Vec<u64>, min: usize, max: usize) -> impl Strategy<Value = Vec<PoolSpec>> {
+    prop::collection::vec(pool_spec(seeds), min..=max).prop_map(|mut v| {
+        // distinct pools
+        let mut seen = BTreeSet::new();
+        v.retain(|p| seen.insert(p.seed));
+        v
+    })
+}
+
+fn attempt_strategy() -> impl Strategy<Value = Attempt> {
+    (any::<u16>(), any::<u16>(), muts_strategy()).prop_map(|(base, other, muts)| Attempt { base, other, muts })
+}
+
+fn case_strategy(seeds: Vec<u64>, fresh: Vec<u64>) -> impl Strategy<Value = Case> {
+    let spec = prop_oneof![
+        10 => attempt_strategy().prop_map(AttemptSpec::New),
+        2 => any::<u16>().prop_map(|of| AttemptSpec::Repeat { of }),
+        2 => (any::<u16>(), any::<u16>()).prop_map(|(of, pool)| AttemptSpec::SameKeyAs { of, pool }),
+    ];
+    (
+        pools_strategy(seeds, 2, 4),
+        prop::collection::vec((1u64 << 40..(1u64 << 40) + 50, stake_strategy()), 0..4),
+        prop::collection::vec(spec, 1..=5),
+    )
+        .prop_filter("two distinct pools", |(p, _, _)| p.len() >= 2)
+        .prop_map(move |(pools, extra, attempts)| Case { pools, fresh: fresh.clone(), extra, attempts })
+}
+
+fn agg_strategy(seeds: Vec<u64>, fresh: Vec<u64>) -> impl Strategy<Value = AggCase> {
+    (
+        pools_strategy(seeds, 2, 3),
+        prop::collection::vec((1u64 << 40..(1u64 << 40) + 50, stake_strategy()), 0..3),
+        attempt_strategy(),
+        prop_oneof![
+            8 => (-2i8..=2).prop_map(PeriodSel::Rel),
+            2 => (-5i8..=5).prop_map(PeriodSel::Rel),
+            2 => prop::sample::select(vec![0u64, 1, 62, 63, 64, 65, 66, u64::MAX]).prop_map(PeriodSel::Abs),
+            1 => Just(PeriodSel::Unknown),
+        ],
+    )
+        .prop_filter("two distinct pools", |(p, _, _, _)| p.len() >= 2)
+        .prop_map(move |(pools, extra, attempt, period)| AggCase { pools, fresh: fresh.clone(), extra, attempt, period })
+}
+
+/// per-run pool of operator seeds (pure function of the run seed); the material is built once, in parallel
+fn build_seeds(seed: u64, n: usize, tag: u64, threads: usize) -> Vec<u64> {
+    let seeds: Vec<u64> = (0..n).map(|i| mix(seed, tag + i as u64) >> 1).collect();
+    let next = std::sync::atomic::AtomicUsize::new(0);
+    std::thread::scope(|sc| {
+        for _ in 0..threads.max(1) {
+            sc.spawn(|| loop {
+                let i = next.fetch_add(1, std::sync::atomic::Ordering::Relaxed);
+                if i >= seeds.len() {
+                    break;
+                }
+                let _ = mat(seeds[i]);
+            });
+        }
+    });
+    seeds
+}
+
+fn self_test() -> Result<(), String> {
+    // bech32 + Blake2b-224 against the vector of the repository's own operational-certificate test
+    let want = "pool1mxyec46067n3querj9cxkk0g0zlag93pf3ya9vuyr3wgkq2e6t7";
+    let got = bech32("pool", &hex::decode("d9899c574fd7a710732391706b59e878bfd416214c49d2b3841c5c8b").unwrap());
+    if got != want {
+        return Err(format!("own bech32 encoder disagrees with the reference vector: {got}"));
+    }
+    let m = mat(0x5e1f);
+    if !pop_valid(&m.vkpop) {
+        return Err("own PoP check rejects an honest key".into());
+    }
+    let mut bad = m.vkpop;
+    bad[96..].copy_from_slice(&mat(0x5e20).vkpop[96..]);
+    if pop_valid(&bad) {
+        return Err("own PoP check accepts a foreign PoP".into());
+    }
+    let sig = Sum6KesSig::from_bytes(&m.kes_sign(5, b"x")).map_err(|e| format!("{e:?}"))?;
+    let pk = KesPublicKey::from_bytes(&m.kes_vk).map_err(|e| format!("{e:?}"))?;
+    let at: Vec<u32> = (0..=MAX_EVO).filter(|t| sig.verify(*t, &pk, b"x").is_ok()).collect();
+    if at != [5] || KES_SIG != Sum6KesSig::SIZE {
+        return Err(format!("KES reference: signature made at 5 verifies at {at:?}"));
+    }
+    Ok(())
+}
 
 pub fn run(args: &Args) -> i32 {
-    let check = Check::new("C07", "exploration", args);
-    check.inconclusive("check not implemented yet".into());
+    let mut check = Check::new("C07", "exploration", args);
+    check
+        .rule("rounds of 1..5 registration attempts over 2..4 pools (real cold key, opcert, KES Sum6 key at evolution e_sig incl. 0/1/62/63, BLS key + PoP) and a stake distribution containing / missing the pools; each attempt = honest registration rewritten by 0..3 grammar mutations (every opcert field without / with re-signing by own, other or fresh cold key; KES signature flipped / borrowed / re-made by own, other, fresh KES key at any evolution over 7 payload variants; announced evolution e±0..4, 0, 62..66, >2^32, u64::MAX, missing; vk / PoP / k1 / k2 replaced or flipped with and without KES re-certification; claimed party id), byte-exact repeats and the same key re-certified by another pool; second section: single attempts through the aggregator's MithrilSignerRegistrationVerifier with the chain KES period around start+e_sig. Non-trivial = at least one applied mutation / repeat; distinct by (applied mutation names, broken conjunct set, window offset, verdict) of all attempts of the round")
+        .assume("trusted base: ed25519-dalek, kes-summed-ed25519 (periods 0..=63 only), blst, Blake2b; structural adversary (no forgeries); production configuration (allow_skip_signer_certification off, future_snark off)")
+        .assume("the aggregator section takes 'the announced evolution' to be chain KES period − certificate start period (saturating), as documented in the verifier; duplicate keys across different pools are not observable at the verifier (fresh KeyRegWrapper per call)")
+        .require_label("honest-accepted")
+        .require_label("accepted")
+        .require_label("rejected")
+        .require_label("only-broken:opcert")
+        .require_label("only-broken:kes")
+        .require_label("only-broken:pop")
+        .require_label("only-broken:dist")
+        .require_label("only-broken:dup")
+        .require_label("window:-1:accepted")
+        .require_label("window:+1:accepted")
+        .require_label("window:-2:rejected")
+        .require_label("window:+2:rejected")
+        .require_label("sig-evolution:0")
+        .require_label("sig-evolution:63")
+        .require_label("announced:64")
+        .require_label("announced:65")
+        .require_label("splice:kes-signature-of-A-for-key-of-B")
+        .require_label("claimed-party-differs")
+        .require_label("closed-registration-checked")
+        .require_label("attempt:repeat")
+        .require_label("attempt:same-key-recertified")
+        .require_label("agg-accepted")
+        .require_label("agg-rejected")
+        .require_label("agg-only-broken:kes")
+        .require_label("agg-only-broken:dist")
+        .require_label("agg-accepted-with-foreign-claim");
+    let t = check.tier;
+    check.shrink_iters(400);
+    if let Err(e) = self_test() {
+        check.inconclusive(format!("harness self-test failed: {e}"));
+        return check.finish();
+    }
+    let scale = if check.is_replay() { 0 } else { 1 };
+    let seeds = build_seeds(check.seed, (scale * t.pick(24, 400) as usize).max(2), 0xC07, check.threads);
+    let fresh = build_seeds(check.seed, 4, 0xF4E5, check.threads);
+    check.note_section("pool", json!({"operators": seeds.len(), "fresh": fresh.len()}));
+    check.section("rounds", || case_strategy(seeds.clone(), fresh.clone()), t.pick(4000, 100_000), case_fn);
+    check.section("aggregator-verifier", || agg_strategy(seeds.clone(), fresh.clone()), t.pick(2000, 50_000), agg_case);
+    check.witness(KEY_ALIAS, "a KES signature made at evolution 63 is accepted although evolution 65 is announced", || {
+        let p = PoolSpec { seed: 0xA11A5, start: 0, issue: 0, e_sig: 63, stake: Some(10) };
+        let mut reg = honest_reg(&p);
+        reg.announced = Some(65);
+        let t = typed(&reg).expect("honest registration decodes");
+        let mut key_reg = KeyRegWrapper::init(&vec![(mat(p.seed).pool_id.clone(), 10)]);
+        key_reg
+            .register(SignerRegistrationParameters {
+                party_id: reg.claim.clone(),
+                operational_certificate: t.opcert.map(ProtocolKey::new),
+                verification_key_for_concatenation: ProtocolKey::new(t.vk),
+                verification_key_signature_for_concatenation: t.sig.map(ProtocolKey::new),
+                kes_evolutions: Some(KesEvolutions(65)),
+            })
+            .is_ok()
+    });
     check.finish()
 }
